@@ -241,6 +241,26 @@ func (c *CEnv) ev(x ast.Expr) CVal {
 	case *ast.Ident:
 		return c.ident(x.Name)
 	case *ast.UnaryExpr:
+		if x.Op == token.AND {
+			// &g for a package-level variable g: the same pseudo reference the encoder uses for its address
+			if id, ok := x.X.(*ast.Ident); ok && c.pkg != nil {
+				if o, ok := c.pkg.Scope().Lookup(id.Name).(*types.Var); ok {
+					if g := e.P.globalFor(o); g != nil {
+						return CVal{S: e.funcValue("globaladdr." + g.String()), T: types.NewPointer(o.Type())}
+					}
+				}
+			}
+			// &x.f for a field of a heap object: the same term the encoder uses when the address is passed as a value
+			if v := c.ev(x.X); v.Place != nil && v.Place.kind == "field" && len(v.Place.sub) == 0 {
+				fn := "faddr_" + v.Place.comp
+				if !e.ufSeen[fn] {
+					e.ufSeen[fn] = true
+					e.ufDecls = append(e.ufDecls, fmt.Sprintf("(declare-fun %s (Int) Int)", fn))
+				}
+				return CVal{S: fmt.Sprintf("(%s %s)", fn, v.Place.ref), T: types.NewPointer(v.T)}
+			}
+			return c.fail("unsupported operand of & (only package-level variables and fields of heap objects)")
+		}
 		v := c.ev(x.X)
 		switch x.Op {
 		case token.NOT:
